@@ -43,9 +43,14 @@ enum Ty {
     Unknown,
 }
 
+static F64_DECODED: std::sync::atomic::AtomicBool = std::sync::atomic::AtomicBool::new(false);
+
 impl Ty {
     fn coq(&self) -> String {
+        let dec = F64_DECODED.load(std::sync::atomic::Ordering::Relaxed);
         match self {
+            Ty::F64 if dec => "fval".into(),
+            Ty::Int(_) if dec => "Z".into(),
             Ty::Int(k) if is_signed(k) => "Z".into(),
             Ty::Int(_) | Ty::Extern(_) | Ty::F64 => "N".into(),
             Ty::Bool => "bool".into(),
@@ -100,6 +105,7 @@ struct Cfg {
     extern_fns: HashMap<String, (String, String)>, // `path::f` -> (Gallina function, result type)
     drop_params: HashSet<String>,
     impl_of: HashSet<String>,                // foreign types whose (selected) methods are translated here
+    f64_decoded: bool,                       // f64 values are decoded doubles (Base/F64.v `fval`), integers are `Z` (api/src/read.rs)
 }
 
 struct Tr {
@@ -175,6 +181,15 @@ impl Tr {
             "bool" => Ty::Bool,
             "f64" => Ty::F64,
             "Self" => Ty::Named("Self".into()),
+            "Option" => {
+                let seg = p.path.segments.last().unwrap();
+                if let PathArguments::AngleBracketed(a) = &seg.arguments {
+                    if let Some(GenericArgument::Type(t)) = a.args.first() {
+                        return Ok(Ty::Opt(Box::new(self.ty(t)?)));
+                    }
+                }
+                return err("Option without a type", p.span());
+            }
             "Vec" => {
                 let seg = p.path.segments.last().unwrap();
                 if let PathArguments::AngleBracketed(a) = &seg.arguments {
@@ -203,6 +218,11 @@ impl Tr {
             }
         })
     }
+}
+
+fn intty_ctor(k: &str) -> String {
+    let mut c = k.chars();
+    match c.next() { Some(f) => f.to_uppercase().collect::<String>() + c.as_str(), None => String::new() }
 }
 
 fn bytes_of(k: &str) -> &'static str {
@@ -518,6 +538,11 @@ impl<'a> Fx<'a> {
     fn cast(&mut self, a: String, from: Ty, to: Ty, sp: Span) -> R<(String, Ty)> {
         match (&from, &to) {
             (_, Ty::Unknown) => Ok((a, from)), // `as _`: type decided by the callee; handled at call sites
+            (Ty::Int(f), Ty::F64) if self.tr.cfg.f64_decoded => { let _ = f; Ok((format!("(decode (of_int {}))", a), Ty::F64)) }
+            (Ty::F64, Ty::Int(t)) if self.tr.cfg.f64_decoded => {
+                let c = intty_ctor(t);
+                Ok((format!("(f_cast (int_min W {}) (int_max W {}) {})", c, c, a), to))
+            }
             (Ty::Int(f), Ty::F64) => Ok((if is_signed(f) { format!("(of_int {})", a) } else { format!("(of_int (Z.of_N {}))", a) }, Ty::F64)),
             (Ty::F32, Ty::F64) => Ok((format!("(of_f32 {})", a), Ty::F64)),
             (Ty::F64, Ty::F64) => Ok((a, Ty::F64)),
@@ -560,6 +585,17 @@ impl<'a> Fx<'a> {
     }
 
     fn path_expr(&mut self, p: &ExprPath) -> R<(String, Ty)> {
+        if let Some(q) = &p.qself {
+            // `<T>::MIN` / `<T>::MAX` of an integer type: the bounds of Api/IntDeser.v (mathematical integers)
+            if let Type::Path(tp) = &*q.ty {
+                let k = path_str(&tp.path).last().unwrap().clone();
+                let item = path_str(&p.path).last().unwrap().clone();
+                let ctor = intty_ctor(&k);
+                if item == "MIN" { return Ok((format!("(int_min W {})", ctor), Ty::Int(format!("zconst:{}", k)))); }
+                if item == "MAX" { return Ok((format!("(int_max W {})", ctor), Ty::Int(format!("zconst:{}", k)))); }
+            }
+            return err("qualified path", p.span());
+        }
         let segs = path_str(&p.path);
         if segs.len() == 1 {
             let n = &segs[0];
@@ -568,6 +604,9 @@ impl<'a> Fx<'a> {
             }
             if let Some((t, _)) = self.tr.consts.get(n) {
                 return Ok((n.clone(), t.clone()));
+            }
+            if n == "None" {
+                return Ok(("None".into(), Ty::Opt(Box::new(Ty::Unknown))));
             }
             return Ok((n.clone(), Ty::Unknown));
         }
@@ -677,6 +716,12 @@ impl<'a> Fx<'a> {
                 self.calls.push(("".into(), ")".into()));
                 (v, lt)
             }
+            Eq(_) | Ne(_) if self.tr.cfg.f64_decoded && (lt == Ty::F64 || rt == Ty::F64) => {
+                let eq = format!("(f_eq {} {})", l, r);
+                (if matches!(b.op, Eq(_)) { eq } else { format!("(negb {})", eq) }, Ty::Bool)
+            }
+            Le(_) if self.tr.cfg.f64_decoded && (lt == Ty::F64 || rt == Ty::F64) => (format!("(f_le {} {})", l, r), Ty::Bool),
+            Ge(_) if self.tr.cfg.f64_decoded && (lt == Ty::F64 || rt == Ty::F64) => (format!("(f_le {} {})", r, l), Ty::Bool),
             Eq(_) | Ne(_) => {
                 let eq = if lt == Ty::Bool || rt == Ty::Bool {
                     format!("(Bool.eqb {} {})", l, r)
@@ -827,6 +872,22 @@ impl<'a> Fx<'a> {
         // (with its side effects on places), the closure body afterwards, in the updated environment
         if (name == "map" || name == "and_then") && args.len() == 1 && matches!(args[0], Expr::Closure(_) | Expr::Path(_)) {
             let (r, rt) = self.expr(&m.receiver, pre)?;
+            if let Ty::Opt(inner) = rt.clone() {
+                let c = match args[0] { Expr::Closure(c) => c, _ => return err("Option::map/and_then with a path", m.span()) };
+                let pname = match c.inputs.first() { Some(Pat::Ident(i)) => i.ident.to_string(), _ => return err("closure parameter", c.span()) };
+                let saved = self.tyenv.get(&pname).cloned();
+                self.tyenv.insert(pname.clone(), *inner);
+                let mut p2 = String::new();
+                let depth = self.calls.len();
+                let (b, bt) = self.expr(&c.body, &mut p2)?;
+                let closers = self.close(depth);
+                match saved { Some(t) => { self.tyenv.insert(pname.clone(), t); } None => { self.tyenv.remove(&pname); } }
+                let (inner_res, out_ty) = if name == "map" { (format!("(Some {})", paren(&b)), Ty::Opt(Box::new(bt))) } else { (b.clone(), bt) };
+                let v = self.fresh("m");
+                let _ = writeln!(pre, "gbind (match {} with Some {} => ({}GOk {}{}) | None => GOk None end) (fun {} =>", r, pname, p2, inner_res, closers, v);
+                self.calls.push(("".into(), ")".into()));
+                return Ok((v, out_ty));
+            }
             if let Ty::Res(inner) = rt {
                 let (pname, body_owned): (String, Expr) = match args[0] {
                     Expr::Closure(c) => {
@@ -905,6 +966,18 @@ impl<'a> Fx<'a> {
                     return Ok((format!("(ptr_add {} {})", a, b), Ty::Ptr));
                 }
             }
+            "trunc" if self.tr.cfg.f64_decoded => {
+                let (a, _) = self.expr(&m.receiver, pre)?;
+                return Ok((format!("(f_trunc {})", a), Ty::F64));
+            }
+            "ok_or" => {
+                let (a, t) = self.expr(&m.receiver, pre)?;
+                if let Ty::Opt(inner) = t {
+                    let (e, _) = self.expr(args[0], pre)?;
+                    return Ok((format!("(match {} with Some v_ => ROk v_ | None => RErr {} end)", a, paren(&e)), Ty::Res(inner)));
+                }
+                return err("ok_or on a value that is not an Option", m.span());
+            }
             "is_nan" => {
                 let (a, _) = self.expr(&m.receiver, pre)?;
                 return Ok((format!("(f64_is_nan {})", a), Ty::Bool));
@@ -945,7 +1018,9 @@ impl<'a> Fx<'a> {
                     let _ = write!(call, " {}", paren(&v));
                 }
                 call.push(')');
-                let rty = if f.ends_with("_opt") { Ty::Opt(Box::new(Ty::Int("Val".into()))) } else { Ty::Int("Val".into()) };
+                let rty = if let Some((_, t)) = f.split_once(':') { let ty: Type = syn::parse_str(t).map_err(|e| e.to_string())?; self.tr.ty(&ty)? }
+                          else if f.ends_with("_opt") { Ty::Opt(Box::new(Ty::Int("Val".into()))) } else { Ty::Int("Val".into()) };
+                let call = match f.split_once(':') { Some((fname, _)) => call.replacen(&f, fname, 1), None => call };
                 return Ok((call, rty));
             }
             let _ = ra;
@@ -1609,6 +1684,7 @@ fn main() {
         extern_fns: HashMap::new(),
         drop_params: HashSet::new(),
         impl_of: HashSet::new(),
+        f64_decoded: false,
     };
     let mut emit_consts = true;
     let mut i = 1;
@@ -1654,6 +1730,7 @@ fn main() {
                 let (f, t) = b.split_once(':').expect("--extern-fn path=f:Type");
                 cfg.extern_fns.insert(a.into(), (f.into(), t.into()));
             }
+            "--f64-decoded" => { cfg.f64_decoded = true; i += 1; continue; }
             "--impl-of" => { cfg.impl_of.extend(v.split(',').map(|s| s.to_string())); }
             "--drop-param" => { cfg.drop_params.extend(v.split(',').map(|s| s.to_string())); }
             "--skip" => {
@@ -1666,6 +1743,7 @@ fn main() {
         }
         i += 2;
     }
+    F64_DECODED.store(cfg.f64_decoded, std::sync::atomic::Ordering::Relaxed);
     match run(&src, &types, &imports, cfg, emit_consts) {
         Ok(text) => {
             let old = std::fs::read_to_string(&out).unwrap_or_default();
